@@ -25,4 +25,6 @@ EAtan2(y, x) == <<"atan2", y, x>>
 EPolyAt(p, bi, bm) == <<"polyat", p, bi, bm>>   \* Poly2 p evaluated at the environment variables named bi, bm
 EGDivPoly(num, den, bi, bm) == <<"gdivpoly", num, den, bi, bm>>   \* guarded quotient of two Poly2
 ESum(ts) == <<"sum", ts>>
+\* int_0^a hat(u / P) du for the period-P triangle wave hat (0 at whole periods, 1 at half periods; mean 1/2)
+EHatInt(a, P) == <<"hatint", a, P>>
 =============================================================================
